@@ -511,11 +511,51 @@ int Node::get_touched() const { return _touched; }
 '''
 
 
-def build_objects_module(work, name, asan=False):
+# the same class with the properties whose evaluation creates helper objects (PyObjectsH)
+NODEH_H = NODE_H.replace("public:\n  explicit Node(int is_static);", r"""  int get_num_vals() const;
+  int get_val(int i) const;
+  void set_val(int i, int v);
+  MAKE_SEQ_PROPERTY(vals, get_num_vals, get_val);
+  MAKE_SEQ_PROPERTY(mvals, get_num_vals, get_val, set_val);
+  MAKE_SEQ(get_vals, get_num_vals, get_val);
+  Node get_copy(int i) const;
+  MAKE_SEQ_PROPERTY(copies, get_num_vals, get_copy);
+  bool has_named(const std::string &key) const;
+  int get_named(const std::string &key) const;
+  void set_named(const std::string &key, int v);
+  MAKE_MAP_PROPERTY(named, has_named, get_named);
+  MAKE_MAP_PROPERTY(mnamed, has_named, get_named, set_named);
+  int get_num_names() const;
+  std::string get_name(int i) const;
+  MAKE_MAP_KEYS_SEQ(named, get_num_names, get_name);
+  MAKE_MAP_KEYS_SEQ(mnamed, get_num_names, get_name);
+  bool operator == (const Node &other) const;
+public:
+  explicit Node(int is_static);
+  int _v[3];""")
+NODEH_CXX = NODE_CXX.replace("_child(nullptr) { ++n_made; }", "_child(nullptr) { ++n_made; _v[0] = 0; _v[1] = 1001; _v[2] = 1002; }", 1) \
+    .replace("Node::Node(int) : _id(next_id++), _touched(0), _counted(false), _child(nullptr) {}",
+             "Node::Node(int) : _id(next_id++), _touched(0), _counted(false), _child(nullptr) { _v[0] = 0; _v[1] = 1001; _v[2] = 1002; }") \
+    .replace("Node::Node(const Node &copy) : _id(next_id++), _touched(0), _counted(true), _child(nullptr) { ++n_made; }",
+             "Node::Node(const Node &copy) : _id(next_id++), _touched(0), _counted(true), _child(nullptr) { ++n_made; for (int i = 0; i < 3; ++i) _v[i] = copy._v[i]; }") + r"""
+int Node::get_num_vals() const { return 3; }
+int Node::get_val(int i) const { return _v[i]; }
+void Node::set_val(int i, int v) { _v[i] = v; }
+Node Node::get_copy(int i) const { Node c(*this); c._v[0] = _v[i]; return c; }
+bool Node::has_named(const std::string &key) const { return key == "a" || key == "b" || key == "c"; }
+int Node::get_named(const std::string &key) const { return _v[key[0] - 'a']; }
+void Node::set_named(const std::string &key, int v) { _v[key[0] - 'a'] = v; }
+int Node::get_num_names() const { return 3; }
+std::string Node::get_name(int i) const { return std::string(1, (char)('a' + i)); }
+bool Node::operator == (const Node &other) const { return _v[0] == other._v[0]; }
+"""
+
+
+def build_objects_module(work, name, asan=False, helpers=False):
     os.makedirs(work, exist_ok=True)
     open(os.path.join(work, "pub.h"), "w").write(pymod.PUBLISH_PRELUDE)
-    open(os.path.join(work, name + ".h"), "w").write('#pragma once\n#include "pub.h"\n' + NODE_H)
-    open(os.path.join(work, name + "_impl.cxx"), "w").write('#include "%s.h"\n' % name + NODE_CXX)
+    open(os.path.join(work, name + ".h"), "w").write('#pragma once\n#include "pub.h"\n' + (NODEH_H if helpers else NODE_H))
+    open(os.path.join(work, name + "_impl.cxx"), "w").write('#include "%s.h"\n' % name + (NODEH_CXX if helpers else NODE_CXX))
     return pymod.build_module(work, name, [name + ".h"], [name + "_impl.cxx"], asan=asan, jobs=3)
 
 
